@@ -46,7 +46,8 @@ inline bool withinCapacity(const Snap &s, std::string *why = nullptr) {
                 size_t data = p.type == -1 ? 1 : static_cast<size_t>(p.type);
                 for (auto d : p.dims) data *= d;
                 if (p.dims.empty()) data = 0;
-                bytes += 2 + p.name.size() + 2 + 2 + p.dims.size() + data + 1 + p.desc.size();
+                const size_t dimBytes = (p.dims.size() == 1 && p.dims[0] == 1) ? 0 : p.dims.size();    // a scalar is written with 0 dimensions
+                bytes += 2 + p.name.size() + 2 + 2 + dimBytes + data + 1 + p.desc.size();
             }
         }
         if (bytes + 1 > 255u * 512u) return bad("parameter section larger than 255 blocks");
